@@ -115,6 +115,7 @@ def run(ctx: Ctx) -> None:
     # ---- R2 -------------------------------------------------------------------------------
     n2 = visitors.traversal_complete(ctx, "C01.R2")
     visitors.only_value_binders(ctx, "C01.R2")
+    visitors.body_only(ctx, "C01.R2")
     rep.floor("C01.R2", n2, 5)
 
     # ---- R3 -------------------------------------------------------------------------------
@@ -125,20 +126,41 @@ def run(ctx: Ctx) -> None:
     vc = iv.methods.get("visit_Call")
     if vc is None:
         raise AnchorError("IntroVisitor.visit_Call not found")
-    for n in vc.own_nodes():
-        if isinstance(n, ast.Call) and (prog.dotted(vc, n.func) or "").endswith("dds_hash") and n.args and isinstance(n.args[0], ast.Subscript) and isinstance(n.args[0].slice, ast.Slice):
-            n3 += 1
+    def _has_end(fn: Func, e: Optional[ast.AST]) -> bool:
+        if e is None:
+            return False
+        s3 = ctx.slicer(follow_calls=False).slice(fn, e)
+        return s3.find(lambda f_, x: (isinstance(x, ast.Attribute) and x.attr == "end_lineno") or (isinstance(x, ast.Constant) and x.value == "end_lineno")) is not None
+
+    for m_ in iv.methods.values():
+        for n in m_.own_nodes():
+            if not (isinstance(n, ast.Call) and (prog.dotted(m_, n.func) or "").endswith("dds_hash") and n.args and isinstance(n.args[0], ast.Subscript)
+                    and isinstance(n.args[0].slice, ast.Slice)):
+                continue
             up = n.args[0].slice.upper
-            s3 = ctx.slicer(follow_calls=False).slice(vc, up) if up is not None else None
-            ok = s3 is not None and s3.find(lambda f_, x: isinstance(x, ast.Attribute) and x.attr == "end_lineno") is not None or (
-                s3 is not None and s3.find(lambda f_, x: isinstance(x, ast.Constant) and x.value == "end_lineno") is not None)
             desc = "the lines hashed as call-site context extend to the end of the (possibly multi-line) call"
-            if ok:
-                rep.ok("C01.R3", vc.qname, desc, vc.loc(n))
+            sites: List[Tuple[Func, Optional[ast.AST]]] = []
+            if m_ is vc:
+                sites.append((vc, up))
             else:
-                rep.bad("C01.R3", vc.qname, desc, vc.loc(n), [f"{vc.loc(n)}: upper bound `{unparse(up)}` depends on the start line only",
-                        "an argument on the third or a later line of a kept call with run-time arguments is outside the context: editing it keeps the signature, the stale value is served"],
-                        "call-extent", what="call-site context stops before the end of a multi-line call")
+                # the context is computed in a helper: the bound comes from the caller in visit_Call
+                s4 = ctx.slicer(follow_calls=False).slice(m_, up) if up is not None else None
+                params = [p_ for p_ in m_.params if s4 is not None and s4.has_param(m_, p_) is not None and p_ != "self"]
+                from ..flow import bind_arg
+                for c_ in [x for x in vc.own_nodes() if isinstance(x, ast.Call) and isinstance(x.func, ast.Attribute) and x.func.attr == m_.name]:
+                    for p_ in params:
+                        for a_ in bind_arg(m_, c_, p_):
+                            sites.append((vc, a_))
+                if not params and _has_end(m_, up):
+                    sites.append((m_, up))
+            for fn_, e_ in sites:
+                n3 += 1
+                if _has_end(fn_, e_):
+                    rep.ok("C01.R3", m_.qname, desc, m_.loc(n))
+                else:
+                    rep.bad("C01.R3", m_.qname, desc, m_.loc(n), [f"{fn_.loc(e_) if e_ is not None else m_.loc(n)}: upper bound `{unparse(e_)}` depends on the start line only",
+                            "an argument on the third or a later line of a kept call with run-time arguments is outside the context: editing it keeps the signature, the stale value is served"],
+                            "call-extent", what="call-site context stops before the end of a multi-line call")
     rep.floor("C01.R3", n3, 1)
 
     # ---- R4 -------------------------------------------------------------------------------
@@ -220,6 +242,19 @@ def run(ctx: Ctx) -> None:
             else:
                 rep.bad("C01.R5", f.qname, desc, f.loc(sb), [f"store key `{unparse(k)}` vs tested keys {[unparse(h.args[0]) for h in has if h.args]}"], stmt_key(sb), what="results are stored under another key than the one looked up")
     rep.floor("C01.R5", n5, 6)
+
+    # ---- R7 / R8 ------------------------------------------------------------------------------
+    from .c03 import global_cache_rule
+    rep.rule("C01.R7", "as C03.R3(i): no process-wide cache of analysis inputs / results is both written and returned (earlier evaluations must not influence later ones)")
+    global_cache_rule(ctx, "C01.R7")
+    from . import c13
+    rep.rule("C01.R8", "as C13.R1-R3: arguments of direct calls and literals seen in source bind and hash alike")
+    before = len(rep.obligations)
+    c13.run(ctx)
+    for o in rep.obligations[before:]:
+        o.rule = "C01.R8/" + o.rule
+    for k in [k for k in rep.floors if k.startswith("C13.")]:
+        rep.floors["C01.R8/" + k] = rep.floors.pop(k)
 
     # ---- R6 -------------------------------------------------------------------------------
     ro = prog.funcs.get("dds._retrieve_objects.ObjectRetrieval.retrieve_object")
@@ -304,4 +339,4 @@ def tracked_type_table(ctx: Ctx) -> None:
         rep.unknown("C01.R4", cls.qname, "type classifier uses syntax outside the abstract evaluator", cls.loc(), und)
     else:
         rep.ok("C01.R4", cls.qname, desc, cls.loc())
-    rep.floor("C01.R4", n, 10)
+    rep.floor("C01.R4", n, 8)
